@@ -135,6 +135,22 @@ def replay(r):
     from tangermeme.tools.tomtom import tomtom
     if r.get("kind") in ("pairmax", "merge", "null"):
         return _replay_kernels(r)
+    if r.get("kind") == "hash":
+        rs = numpy.random.RandomState(0)
+        for trial in range(6):
+            # one-hot columns pin every row's min/max to 0/1, so the binned digits are round(99 * value)
+            cols = [numpy.array([10, 60, 14, 15]) / 99., numpy.array([60, 9, 15, 15]) / 99.] + [numpy.eye(4)[k] for k in range(4)]
+            for _ in range(6):
+                c = rs.multinomial(99, [0.25] * 4)
+                cols.append(c / 99.)
+            rs.shuffle(cols)
+            Ts = [numpy.array(cols[:5]).T.copy(), numpy.array(cols[5:]).T.copy()]
+            Q = numpy.array([cols[i] for i in rs.randint(0, len(cols), size=3)]).T.copy()
+            a = tomtom([Q], Ts, n_jobs=1, n_target_bins=r["n_target_bins_real"], n_score_bins=r["n_score_bins_real"]).numpy()
+            b = tomtom([Q], Ts, n_jobs=1, n_target_bins=None, n_score_bins=r["n_score_bins_real"]).numpy()
+            if not numpy.allclose(a, b, atol=1e-9):
+                return True, "hashed (n_target_bins=%d) and un-hashed results differ although the binning is injective on these columns" % r["n_target_bins_real"]
+        return False, "ok"
     grid = [0.0, 0.25, 0.5, 0.75, 1.0]
     cols = [c for c in itertools.product(grid, repeat=4) if abs(sum(c) - 1) < 1e-9]
     rng = numpy.random.RandomState(r.get("seed", 0))
@@ -341,6 +357,30 @@ def worker(cfg):
             return "returned"
         core.explore(body, stats=stats)
 
+    elif kind == "hash":
+        # column hashing in tomtom(): two target columns may only be merged if all their binned entries agree
+        import ast as _ast
+        blk, info = ld.slice_function("tools.tomtom", "tomtom", lambda st, text: isinstance(st, _ast.Assign) and text.startswith("T_ints = T_ints.T.dot"),
+                                      lambda st, text: isinstance(st, _ast.Assign) and text.startswith("T_ints = T_ints.T.dot"),
+                                      ["T_ints", "T", "n_target_bins", "n_score_bins"], ["T_ints"], within=lambda nd, text: isinstance(nd, _ast.If) and text.startswith("if n_target_bins is not None"))
+        out.setdefault("functions", []).append(info)
+        ntb, nsb = cfg["n_target_bins"], cfg["n_score_bins"]
+
+        def body(ctx):
+            d = np.empty((4, 2), dtype=object)
+            for c in np.ndindex(4, 2):
+                v = core.Int("d_%d_%d" % c)
+                ctx.assume(s_and(v >= 0, v <= ntb - 1))
+                d[c] = v
+            (h,) = blk(T.NDArray(d.copy(), dtype="float64"), T.NDArray(np.zeros((4, 2), dtype=object), dtype="float64"), ntb, nsb)
+            hv = list(h.a.flat)
+            m = ctx.prove(s_or(hv[0] != hv[1], s_and(*[d[k, 0] == d[k, 1] for k in range(4)])), "hash is injective on binned columns")
+            if m is not None:
+                add("hash:collision", "two different binned target columns receive the same hash (they would be merged): %s vs %s" % (
+                    [core.model_value(m, d[k, 0]) for k in range(4)], [core.model_value(m, d[k, 1]) for k in range(4)]), dict(cfg))
+            return "returned"
+        core.explore(body, stats=stats)
+
     elif kind == "pairmax":
         n = cfg["n"]
 
@@ -371,6 +411,8 @@ def worker(cfg):
 def configs(tier):
     q = tier == "quick"
     cf = [dict(kind="null", nq=1, n_bins=2, t_max=2, offset=1), dict(kind="null", nq=2, n_bins=2, t_max=2, offset=1), dict(kind="null", nq=2, n_bins=2, t_max=3, offset=0),
+          dict(kind="null", nq=2, n_bins=2, t_max=1, offset=1), dict(kind="null", nq=3, n_bins=2, t_max=2, offset=0), dict(kind="null", nq=3, n_bins=2, t_max=1, offset=1),
+          dict(kind="hash", n_target_bins=5, n_score_bins=3, n_target_bins_real=100, n_score_bins_real=50),
           dict(kind="pvalues", nq=1, T_lens=[1, 2], n_scores=3, offset=0, gmax=2), dict(kind="pvalues", nq=2, T_lens=[2], n_scores=4, offset=1, gmax=1),
           dict(kind="pvalues", nq=2, T_lens=[1, 3], n_scores=4, offset=0, gmax=2), dict(kind="merge", n=2), dict(kind="pairmax", n=4)]
     if not q:
